@@ -11,6 +11,7 @@ import Bermuda.Lemmas.UnitsTiling
 import Bermuda.Lemmas.UnitsAggregate
 import Bermuda.Lemmas.UnitsRoundtrip
 import Bermuda.Lemmas.UnitsExample
+import Bermuda.Lemmas.UnitsCovered
 import Bermuda.Spec.C18
 namespace Bermuda.Properties.C18
 open Bermuda Bermuda.Units Bermuda.Spec.C18
@@ -167,6 +168,22 @@ example : convertCurrency [exCell] "USD" [("EUR", .flt (5/4))] =
 
 example : ∃ e, convertCurrency [exCell] "USD" [("GBP", .flt 2)] = .error e :=
   currency_refuses_missing_rate (c := exCell) (cur := "EUR") (by simp) rfl (by decide) (by decide)
+
+open Bermuda.Units.Example in
+/-- **twin slices** (the case `currency_spec_bridge` excludes by `hpos`): an EUR slice and a USD slice
+that differ only in the currency land on the same position after conversion. The code keeps BOTH cells
+(the result is a triangle with duplicate cells — `Triangle(...)` only warns), each converted or kept as
+`currency_spec` says (which has no such hypothesis), the count is unchanged, and the executable predicate
+is true on this output; only the general bridge proof (greedy `matchAll`) assumes distinct positions. -/
+theorem currency_twin_slices :
+    ¬ (twinT.map (posAfter "USD")).Nodup ∧
+    convertCurrency twinT "USD" [("EUR", .flt (5/4))] = .ok twinOut ∧
+    twinOut = [twinCell "USD" (.flt 125), twinCell "USD" (.int 125)] ∧
+    currencySpec moneyFields "USD" [("EUR", 5/4)] twinT twinOut = true :=
+  ⟨fun h => by
+      simp only [twinT, List.map] at h
+      exact (List.nodup_cons.mp h).1 (List.mem_singleton.mpr (by decide +kernel)),
+    twin_convert, rfl, twin_spec⟩
 
 /-! ### 2. disaggregate_experience -/
 
@@ -434,6 +451,19 @@ theorem exT_roundtrip :
 example : exT.filter (observable 6) = exT := by decide +kernel
 
 
+/-- **what is NOT carried** (1): fields outside the selection are dropped — `exY` has `open_claims`,
+no cell of `disaggregate_experience [exY]` (default fields) has it -/
+theorem disagg_drops_unselected :
+    disaggregateExperience exT 6 exW none = .ok exOut ∧
+    (∀ c ∈ exT, "open_claims" ∈ c.values.keys) ∧ (∀ o ∈ exOut, "open_claims" ∉ o.values.keys) :=
+  ⟨exT_disagg, by decide +kernel, by decide +kernel⟩
+
+/-- **what is NOT carried** (2): a cell whose evaluation date lies inside its first sub-period (here
+2020-03-31 for half-year sub-periods of 2020) has no observable sub-period and vanishes -/
+theorem disagg_drops_unobservable :
+    observable 6 exU = false ∧ disaggregateExperience [exU] 6 exW none = .ok [] :=
+  ⟨by decide +kernel, exU_disagg⟩
+
 /-! ### 3. accident_quarter_to_policy_year -/
 
 /-- **policyYear_basis.** every cell of the result is Policy-basis -/
@@ -509,6 +539,36 @@ theorem policyYear_conserves {t out : List Cell} {len : Nat} {origin : Date} {co
     have := List.all_eq_true.mp this row hrow
     simpa using this
 
+/-- **policyYear_covered_iff.** The hypothesis `policyCovered` of `policyYear_conserves`, free of the
+share table: it holds iff in every slice every accident period is REACHED by one of the policy years of
+`policy_years_covered` (`Units.reaches`: the policy year has a written month, and some month between its
+first written month and its last written month + `policy_length_months` starts inside the accident
+period; with `continuous_issuance=False` the only written month is the first). -/
+theorem policyYear_covered_iff {t : List Cell} {len : Nat} (hlen : 1 ≤ len) (origin : Date) (cont : Bool) :
+    policyCovered t len origin cont = true ↔
+      ∀ sl ∈ Triangle.slices t, ∀ pys, policyYearsCovered sl.2 origin = .ok pys →
+        ∀ q ∈ periods sl.2, ∃ py ∈ pys, reaches len cont q py :=
+  policyCovered_iff_reached hlen origin cont
+
+/-- continuous issuance: a policy year reaches every accident period that starts on the first of a
+month inside it (date-wise `py.start ≤ q.start ≤ py.end`), whatever the policy length — so with
+`continuous_issuance=True` an accident period can only be uncovered if NO policy year of
+`policy_years_covered` contains its (first-of-month) start -/
+theorem policyYear_reached_of_contains {len : Nat} {q py : Date × Date} (hq : q.1.valid = true)
+    (hd : q.1.d = 1) (hle : q.1 ≤ q.2) (hv1 : py.1.valid = true) (hv2 : py.2.valid = true)
+    (h1 : py.1 ≤ q.1) (h2 : q.1 ≤ py.2) : reaches len true q py :=
+  reaches_of_contains hq hd hle hv1 hv2 h1 h2
+
+/-- `policyYear_conserves` with the hypothesis stated on the inputs (policy years vs accident periods) -/
+theorem policyYear_conserves_reached {t out : List Cell} {len : Nat} {origin : Date} {cont : Bool}
+    (h : aqToPolicyYear t len origin cont = .ok out) (hlen : 1 ≤ len)
+    (hreach : ∀ sl ∈ Triangle.slices t, ∀ pys, policyYearsCovered sl.2 origin = .ok pys →
+      ∀ q ∈ periods sl.2, ∃ py ∈ pys, reaches len cont q py)
+    (hu : UniformShapes t) (m' : Metadata) (d : Date) (f : String) (i : Nat) :
+    total (out.filter fun o => o.md == m' && o.ev == d) f i =
+      total (t.filter fun c => toPolicy c.md == m' && c.ev == d) f i :=
+  policyYear_conserves h ((policyYear_covered_iff hlen origin cont).mpr hreach) hu m' d f i
+
 /-- every cell of the result is a `CumulativeCell` -/
 theorem policyYear_kind {t out : List Cell} {len : Nat} {origin : Date} {cont : Bool}
     (h : aqToPolicyYear t len origin cont = .ok out)
@@ -569,6 +629,16 @@ example : aqToPolicyYear [exQ1] 12 (Date.mk 2020 1 1) true =
     .ok [{ exQ1 with ps := Date.mk 2020 1 1, pe := Date.mk 2020 12 31, values := [("paid_loss", Val.flt 100)], md := { riskBasis := some "Policy" } }] := by
   decide +kernel
 example : UniformShapes [exQ1] := ⟨fun _ _ => none, by decide⟩
+
+/-- a non-trivial `UniformShapes` instance: two slices, one with 3-sample arrays for `paid_loss` (and a
+scalar premium on one cell only), the other with scalar `paid_loss` — one shape per field WITHIN a slice -/
+def exArrCell (m : Metadata) (ev : Date) (vals : Dict Val) : Cell :=
+  { kind := .cumulative, ps := Date.mk 2020 1 1, pe := Date.mk 2020 3 31, ev := ev, values := vals, md := m }
+example : UniformShapes
+    [exArrCell {} (Date.mk 2020 3 31) [("paid_loss", .arr false [3] [1, 2, 3])],
+     exArrCell {} (Date.mk 2020 6 30) [("paid_loss", .arr true [3] [4, 5, 6]), ("earned_premium", .flt 10)],
+     exArrCell { currency := some "EUR" } (Date.mk 2020 3 31) [("paid_loss", .int 7)]] :=
+  ⟨fun m f => if m = {} ∧ f = "paid_loss" then some 3 else none, by decide⟩
 
 /-! ### 4. program_earned_premium -/
 
